@@ -371,6 +371,13 @@ func vGenPod(rng *rand.Rand, n int) *vPod {
 	case 8:
 		p.ann["prefer-isolated-cpus."+vKey+"/pod"] = "false"
 	}
+	if rng.Intn(8) == 0 {
+		// container affinity / anti-affinity (simple and full notation); influences placement only
+		p.ann[vKey+"/"+[]string{"affinity", "anti-affinity"}[rng.Intn(2)]] = []string{
+			fmt.Sprintf("ctr%d: [ ctr%d ]", n*3, n*3+1),
+			fmt.Sprintf("ctr%d:\n- scope:\n    key: pod/namespace\n    operator: Equals\n    values: [ %s ]\n  match:\n    key: pod/qosclass\n    operator: In\n    values: [ Guaranteed, Burstable ]\n  weight: %d\n", rng.Intn(20), p.ns, 1+rng.Intn(50)),
+		}[rng.Intn(2)]
+	}
 	if vBalloonAnn {
 		switch rng.Intn(10) {
 		case 0:
@@ -434,7 +441,132 @@ var (
 	vNodeMem  []int64
 	vRestarts bool // histories with plugin restarts (C11)
 	vBalloonAnn bool // pods may carry balloons-policy annotations (balloon type, hide-hyperthreads)
+	vCfgChanges bool // histories with invalid and changed configuration updates (C13)
 )
+
+// vMutateCfg derives an invalid configuration (kind "bad:…", must be rejected) or a valid changed one (kind "change:…")
+// from the configuration in force. desc describes the new configuration in the H-line syntax.
+func vMutateCfg(rng *rand.Rand, cur cfgapi.ResmgrConfig, m *verifgen.Machine) (cfgapi.ResmgrConfig, string, string) {
+	online := m.Online()
+	switch c := cur.(type) {
+	case *cfgapi.TopologyAwarePolicy:
+		n := c.DeepCopy()
+		o := &n.Spec.Config
+		if o.AvailableResources == nil {
+			o.AvailableResources = tacfg.Constraints{}
+		}
+		if o.ReservedResources == nil {
+			o.ReservedResources = tacfg.Constraints{}
+		}
+		kind := ""
+		if rng.Intn(2) == 0 {
+			switch rng.Intn(5) {
+			case 0:
+				o.AvailableResources[tacfg.CPU] = "cpuset:0-x"
+				kind = "bad:available-unparsable"
+			case 1:
+				o.ReservedResources[tacfg.CPU] = "cpuset:,,"
+				kind = "bad:reserved-unparsable"
+			case 2:
+				delete(o.ReservedResources, tacfg.CPU)
+				kind = "bad:no-reservation"
+			case 3:
+				if len(online) >= 2 {
+					o.AvailableResources[tacfg.CPU] = policycfg.Amount("cpuset:" + strconv.Itoa(online[0]))
+					o.ReservedResources[tacfg.CPU] = policycfg.Amount("cpuset:" + strconv.Itoa(online[len(online)-1]))
+					kind = "bad:reserved-outside-available"
+				}
+			case 4:
+				o.ReservedResources[tacfg.CPU] = "999"
+				kind = "bad:unsatisfiable-reservation"
+			}
+			if kind != "" {
+				return n, kind, "-"
+			}
+		}
+		switch rng.Intn(4) {
+		case 0:
+			o.PinCPU = !o.PinCPU
+			kind = "change:pincpu"
+		case 1:
+			o.PinMemory = !o.PinMemory
+			kind = "change:pinmem"
+		case 2:
+			if len(o.ReservedPoolNamespaces) == 0 {
+				o.ReservedPoolNamespaces = []string{"reserved-*"}
+			} else {
+				o.ReservedPoolNamespaces = nil
+			}
+			kind = "change:reservedns"
+		default:
+			o.ColocatePods = !o.ColocatePods
+			kind = "change:colocatepods"
+		}
+		desc := []string{}
+		if !o.PinCPU {
+			desc = append(desc, "pincpu=0")
+		}
+		if !o.PinMemory {
+			desc = append(desc, "pinmem=0")
+		}
+		desc = append(desc, "reserved="+string(o.ReservedResources[tacfg.CPU]))
+		if len(o.ReservedPoolNamespaces) > 0 {
+			desc = append(desc, "reservedns=reserved-*")
+		}
+		return n, kind, strings.Join(desc, ";")
+	case *cfgapi.BalloonsPolicy:
+		n := c.DeepCopy()
+		o := &n.Spec.Config
+		kind := ""
+		if rng.Intn(2) == 0 {
+			switch rng.Intn(6) {
+			case 0:
+				o.BalloonDefs = append(o.BalloonDefs, o.BalloonDefs[0].DeepCopy())
+				kind = "bad:duplicate-type"
+			case 1:
+				o.BalloonDefs[0].MinCpus, o.BalloonDefs[0].MaxCpus = 3, 2
+				kind = "bad:min-above-max-cpus"
+			case 2:
+				o.BalloonDefs[0].MinBalloons, o.BalloonDefs[0].MaxBalloons = 3, 1
+				kind = "bad:min-above-max-balloons"
+			case 3:
+				o.BalloonDefs[0].Loads = []string{"nosuchload"}
+				kind = "bad:undefined-load-class"
+			case 4:
+				o.AvailableResources = bcfg.Constraints{policycfg.CPU: "cpuset:0-x"}
+				kind = "bad:available-unparsable"
+			case 5:
+				o.BalloonDefs[0].MinBalloons, o.BalloonDefs[0].MaxBalloons, o.BalloonDefs[0].MinCpus, o.BalloonDefs[0].MaxCpus = len(online)+1, 0, 1, 0
+				kind = "bad:unsatisfiable-capacity"
+			}
+			return n, kind, "-"
+		}
+		d := o.BalloonDefs[rng.Intn(len(o.BalloonDefs))]
+		switch rng.Intn(5) {
+		case 0:
+			d.MaxCpus = []int{0, 2, 4}[rng.Intn(3)]
+			if d.MaxCpus != 0 && d.MinCpus > d.MaxCpus {
+				d.MinCpus = d.MaxCpus
+			}
+			kind = "change:maxcpus"
+		case 1:
+			d.ShareIdleCpusInSame = []bcfg.CPUTopologyLevel{"", "system", "package", "numa"}[rng.Intn(4)]
+			kind = "change:sharelevel"
+		case 2:
+			o.IdleCpuClass = o.IdleCpuClass + "x"
+			kind = "change:idleclass-only"
+		case 3:
+			t := d.HideHyperthreads == nil || !*d.HideHyperthreads
+			d.HideHyperthreads = &t
+			kind = "change:hideht"
+		default:
+			d.CpuClass = d.CpuClass + "y"
+			kind = "change:cpuclass-only"
+		}
+		return n, kind, "changed"
+	}
+	return cur, "same", "-"
+}
 
 func vPodKeys(wd *vWorld) []string {
 	pk := []string{}
@@ -788,6 +920,38 @@ func (h *vHarness) vRunHistory(w *bufio.Writer, rng *rand.Rand, wd *vWorld, nEve
 				}
 				return upd, err
 			})
+		case r >= 96 && vCfgChanges: // a configuration update: invalid (must be rejected and leave no trace) or a valid change
+			newCfg, kind, desc := vMutateCfg(rng, h.m.cfg, h.mach)
+			fmt.Fprintf(w, "E reconfig %s\n", kind)
+			r := vSafe(func() string { return vErr(h.m.reconfigure(newCfg)) })
+			if strings.HasPrefix(r, "ok") {
+				h.cfgv = newCfg
+				h.treePrinted = false // balloon types may have changed: print them again
+				fmt.Fprintf(w, "CFG %s\n", desc)
+				// containers left without resources by the change: could they have been satisfied at all?
+				if h.polName != "balloons" {
+					granted := map[string]bool{}
+					for _, l := range topologyaware.VerifSnapshot(h.backend) {
+						if f := strings.Fields(l); len(f) > 1 && f[0] == "PG" {
+							granted[f[1]] = true
+						}
+					}
+					for _, c := range cs {
+						if granted[c.id] || c.state == api.ContainerState_CONTAINER_STOPPED {
+							continue
+						}
+						if cc, ok := h.m.cache.LookupContainer(c.id); ok {
+							if aerr := h.m.policy.AllocateResources(cc); aerr != nil {
+								fmt.Fprintf(w, "X unsat %s\n", c.id)
+							} else {
+								h.m.policy.ReleaseResources(cc)
+							}
+						}
+					}
+				}
+			}
+			fmt.Fprintf(w, "R %s - %s\n", r, h.vPushed())
+			h.vAfter(w)
 		default: // re-apply the unchanged configuration
 			fmt.Fprintf(w, "E reconfig same\n")
 			r := vSafe(func() string { return vErr(h.m.reconfigure(h.m.cfg)) })
@@ -868,6 +1032,7 @@ func TestVerifTAHistories(t *testing.T) {
 		wd := &vWorld{pods: map[string]*vPod{}, ctrs: map[string]*vCtr{}}
 		vMemHeavy, vNodeMem = i%2 == 1, nil
 		vRestarts = os.Getenv("VERIF_RESTARTS") == "1"
+		vCfgChanges = os.Getenv("VERIF_CFGCHANGES") == "1"
 		for _, nd := range m.Nodes {
 			if nd.HasMemory && nd.MemTotal > 0 {
 				vNodeMem = append(vNodeMem, int64(nd.MemTotal)*1024)
@@ -989,6 +1154,7 @@ func TestVerifBAHistories(t *testing.T) {
 		wd := &vWorld{pods: map[string]*vPod{}, ctrs: map[string]*vCtr{}}
 		vMemHeavy, vNodeMem = false, nil
 		vRestarts = os.Getenv("VERIF_RESTARTS") == "1"
+		vCfgChanges = os.Getenv("VERIF_CFGCHANGES") == "1"
 		vBalloonAnn = true
 		h.vRunHistory(w, rng, wd, 8+rng.Intn(40), len(m.Online()), i%4 == 3)
 		vBalloonAnn = false
